@@ -102,6 +102,8 @@ const ID_202612_NETWORK: &str = "bbd604d2ba11ba27935e006ed39c9bfdd99b76bf4a50654
 /// block 202612 of the Monero main chain (16 672 bytes, version-1 miner transaction, 513 listed hashes), the only input that
 /// reaches the substitution branch of `Block::id`. Embedded so that the family does not depend on where the library keeps its tests.
 const BLOCK_202612: &str = include_str!("c06_block202612.hex");
+/// the bytes of main-chain block 202612 (for the identifier operations of other properties)
+pub fn block_202612_bytes() -> Vec<u8> { unhex(BLOCK_202612.trim()) }
 /// Monero's own tree-hash vectors (tests/hash/tests-tree.txt of the reference implementation, 1..=16 leaves; the same
 /// triples are quoted by the test `compute_tree_hash` of src/cryptonote/hash.rs): (expected root, concatenated leaves)
 const TREE_KAT: [(&str, &str); 16] = [
@@ -278,6 +280,14 @@ fn gen_block_v1(rng: &mut Rng, n_tx: usize) -> Block {
 }
 
 fn block_case(o: &mut Out, blk: &Block, bytes: &[u8], fam: &str) { block_case_opt(o, blk, bytes, fam, true) }
+/// identifier operations on block BYTES for other properties (C01): parsed blocks get the full treatment of `block_case` (independent
+/// formulas in Rust, model and spec through the driver); bytes that do not parse are compared with the model only. Returns the library's line.
+pub fn block_id_case(o: &mut Out, bytes: &[u8], fam: &str) -> String {
+    match deserialize::<Block>(bytes) {
+        Ok(blk) => { block_case_opt(o, &blk, bytes, fam, true); block_line(bytes) }
+        Err(_) => o.op(format!("c06_block {} - - -", hex(bytes)), false),
+    }
+}
 /// `through_driver = false`: Rust oracle only (blocks too large for an operation line)
 fn block_case_opt(o: &mut Out, blk: &Block, bytes: &[u8], fam: &str, through_driver: bool) {
     let hdr = serialize(&blk.header);
